@@ -36,6 +36,9 @@ fn process_plane(input: &mut dyn Read, width: u32, height: u32, output: &mut [u8
 					collen = 0;
 				}
 				while collen > 0 {
+					if indexw >= width {
+						return Err(Error::RdpError(RdpError::new(RdpErrorKind::InvalidData, "run too long for the line during decompress")))
+					}
 					color = input.read_u8()? as i8;
 					output[out as usize] = color as u8;
 					out += 4;
@@ -43,6 +46,9 @@ fn process_plane(input: &mut dyn Read, width: u32, height: u32, output: &mut [u8
 					collen -= 1;
 				}
 				while replen > 0 {
+					if indexw >= width {
+						return Err(Error::RdpError(RdpError::new(RdpErrorKind::InvalidData, "run too long for the line during decompress")))
+					}
 					output[out as usize] = color as u8;
 					out += 4;
 					indexw += 1;
@@ -62,6 +68,9 @@ fn process_plane(input: &mut dyn Read, width: u32, height: u32, output: &mut [u8
 					collen = 0;
 				}
 				while collen > 0 {
+					if indexw >= width {
+						return Err(Error::RdpError(RdpError::new(RdpErrorKind::InvalidData, "run too long for the line during decompress")))
+					}
 					x = input.read_u8()?;
 					if x & 1 != 0{
 						x = x >> 1;
@@ -80,6 +89,9 @@ fn process_plane(input: &mut dyn Read, width: u32, height: u32, output: &mut [u8
 					collen -= 1;
 				}
 				while replen > 0 {
+					if indexw >= width {
+						return Err(Error::RdpError(RdpError::new(RdpErrorKind::InvalidData, "run too long for the line during decompress")))
+					}
 					x = (output[(last_line + (indexw * 4)) as usize] as i32 + color as i32) as u8;
 					output[out as usize] = x;
 					out += 4;
@@ -100,6 +112,12 @@ pub fn rle_32_decompress(input: &[u8], width: u32, height: u32, output: &mut [u8
 
 	if input_cursor.read_u8()? != 0x10 {
 		return Err(Error::RdpError(RdpError::new(RdpErrorKind::UnexpectedType, "Bad header")))
+	}
+
+	// all offsets are computed on 32 bits, and each plane start inside the first pixel
+	let size = width as u64 * height as u64 * 4;
+	if size == 0 || size > std::u32::MAX as u64 || (output.len() as u64) < size {
+		return Err(Error::RdpError(RdpError::new(RdpErrorKind::InvalidSize, "Invalid size for bitmap")))
 	}
 
 	process_plane(&mut input_cursor, width, height, &mut output[3..])?;
@@ -321,7 +339,7 @@ pub fn rle_16_decompress(input: &[u8], width: usize, mut height: usize, output: 
 				0xe => {
 					repeat!(output[line.unwrap() + x] = 0, count, x, width);
 				}
-				_ => panic!("opcode")
+				_ => return Err(Error::RdpError(RdpError::new(RdpErrorKind::InvalidData, "unknown opcode during decompress")))
 			}
 		}
 	}
